@@ -216,7 +216,28 @@ def _match_here(ops, i, text, pos, spans, flags, cont):
             return second()
 
         return rep(0, pos, spans)
+    if op in (sre_c.ASSERT, sre_c.ASSERT_NOT):
+        direction, sub = av
+        sub = list(sub)
+        if direction < 0:
+            lo, hi = p_width(sub)
+            if lo != hi:
+                raise Unsupported("variable-width lookbehind")
+            start = pos - lo
+            ok = False
+            if start >= 0:
+                ok = _match_here(sub, 0, text, start, {}, flags, lambda p2, sp2: True if p2 == pos else None) is not None
+        else:
+            ok = _match_here(sub, 0, text, pos, {}, flags, lambda p2, sp2: True) is not None
+        if (op is sre_c.ASSERT) != ok:
+            return None
+        return _match_here(ops, i + 1, text, pos, spans, flags, cont)
     raise Unsupported("re op %s" % (op,))
+
+
+def p_width(sub):
+    sp = sre_parse.SubPattern(sre_parse.State(), list(sub))
+    return sp.getwidth()
 
 
 def _cells(s):
@@ -315,7 +336,52 @@ class ReShim:
         return _run(pattern, string, flags, False, False)
 
 
-for _f in (ReShim.match, ReShim.fullmatch, ReShim.search, ReShim.compile):
+def _sub(pattern, repl, string, count=0, flags=0):
+    if isinstance(pattern, SymPattern):
+        pattern = pattern.real
+    string = V.unwrap(string)
+    repl = V.unwrap(repl)
+    if not V.is_sym(string):
+        return _re.sub(V.unwrap(pattern), repl, string, count, flags)
+    if callable(repl) or V.is_sym(repl):
+        raise Unsupported("re.sub with callable/symbolic replacement")
+    pat = pattern.pattern if hasattr(pattern, "pattern") else pattern
+    if hasattr(pattern, "flags"):
+        flags |= pattern.flags & ~_re.UNICODE
+    # expand the template once (no group references supported)
+    probe = _re.compile("(?:x)")
+    try:
+        lit = probe.sub(repl, "x")
+    except (_re.error, IndexError):
+        raise Unsupported("re.sub template with group references")
+    cells, T = _cells(string)
+    p = sre_parse.parse(pat, flags)
+    ops = list(p)
+    fl = p.state.flags | flags
+    out = []
+    pos, n, done = 0, len(cells), 0
+    litc = [ord(c) for c in lit] if T is SymStr else list(lit)
+    while pos <= n:
+        m = None
+        if not count or done < count:
+            m = _match_here(ops, 0, cells, pos, {}, fl, lambda p2, sp2: p2)
+        if m is not None and m > pos:
+            out.extend(litc)
+            pos = m
+            done += 1
+            continue
+        if m is not None and m == pos:
+            raise Unsupported("re.sub with an empty match on symbolic text")
+        if pos < n:
+            out.append(cells[pos])
+        pos += 1
+    return V.unwrap(T(out))
+
+
+ReShim.sub = staticmethod(_sub)
+SymPattern.sub = lambda self, repl, string, count=0: _sub(self.real, repl, string, count)
+
+for _f in (ReShim.match, ReShim.fullmatch, ReShim.search, ReShim.compile, ReShim.sub):
     _f.__symx_model__ = True
 
 DEFAULT_OVERRIDES["re"] = ReShim
@@ -327,6 +393,8 @@ def _call_hook(self, f, args, kwargs):
         name = f.__name__
         if name in ("match", "fullmatch", "search"):
             return getattr(ReShim, name)(selfobj, args[0])
+        if name == "sub":
+            return _sub(selfobj, *args, **kwargs)
         raise Unsupported("re.Pattern.%s on symbolic text" % name)
     return NOT_HANDLED
 
